@@ -1,1 +1,291 @@
-(* stub: to be written by group Costs *)
+(* Total-cost tables (--total-costs): portfolio/bookkeeping/costs.rs
+   (MaxSingleDayCosts::observe_new_cost, calc_max_day_cost_per_sec,
+   calc_yearly_max_cost_day, calc_total_costs), portfolio/render.rs
+   render_total_costs and the concatenation of the securities' delta lists in
+   app/approot.rs run_acb_app_to_render_model.
+
+   Input: the deltas as data (security number = rank of the security name,
+   settlement day number, affiliate number, the code's is_default() flag, ACB
+   before / after: None for a registered affiliate).  Rust HashMaps are
+   association lists in insertion order; every loop over a hash container
+   takes its iteration order as an explicit list, so that the order the code
+   uses (sorted, after the C09 fixes) and an arbitrary hash order (before)
+   are instances of the same definitions.  Definitions only. *)
+From Coq Require Import List NArith ZArith QArith Qcanon Bool.
+From ACB Require Import Base.Outcome Base.QcExtra Base.Arith Model.Tx.
+Import ListNotations.
+Local Open Scope Z_scope.
+
+(* ---- keys: days (Z) and years (Z), securities (N, Model.Tx.alookup) ---- *)
+Section ZAssoc.
+  Context {V : Type}.
+  Fixpoint zlookup (k : Z) (l : list (Z * V)) : option V :=
+    match l with
+    | [] => None
+    | (k', v) :: r => if Z.eqb k k' then Some v else zlookup k r
+    end.
+  Fixpoint zupdate (k : Z) (v : V) (l : list (Z * V)) : list (Z * V) :=
+    match l with
+    | [] => [(k, v)]
+    | (k', v') :: r => if Z.eqb k k' then (k, v) :: r else (k', v') :: zupdate k v r
+    end.
+End ZAssoc.
+
+(* insertion sorts (Vec::sort on dates / years / security names) *)
+Fixpoint zinsert (x : Z) (l : list Z) : list Z :=
+  match l with
+  | [] => [x]
+  | h :: r => if Z.leb x h then x :: l else h :: zinsert x r
+  end.
+Definition zsort (l : list Z) : list Z := fold_right zinsert [] l.
+Fixpoint ninsert (x : N) (l : list N) : list N :=
+  match l with
+  | [] => [x]
+  | h :: r => if N.leb x h then x :: l else h :: ninsert x r
+  end.
+Definition nsort (l : list N) : list N := fold_right ninsert [] l.
+
+(* time::Date::year of a day number (proleptic Gregorian ordinal, day 1 =
+   0001-01-01, as Python's date.toordinal): Hinnant's civil_from_days. *)
+Definition year_of (ord : Z) : Z :=
+  let z := ord - 719163 + 719468 in
+  let era := z / 146097 in
+  let doe := z - era * 146097 in
+  let yoe := (doe - doe / 1460 + doe / 36524 - doe / 146096) / 365 in
+  let y := yoe + era * 400 in
+  let doy := doe - (365 * yoe + yoe / 4 - yoe / 100) in
+  let mp := (5 * doy + 2) / 153 in
+  let m := if mp <? 10 then mp + 3 else mp - 9 in
+  if m <=? 2 then y + 1 else y.
+
+(* ---- input ---- *)
+Record cdelta : Type := {
+  cd_sec : N;               (* post_status.security *)
+  cd_day : Z;               (* tx.settlement_date *)
+  cd_af : N;                (* tx.affiliate (number; Model.Tx.default_id = "default") *)
+  cd_dflt : bool;           (* tx.affiliate.is_default() as the code computes it *)
+  cd_pre : option Qc;       (* pre_status.total_acb *)
+  cd_post : option Qc       (* post_status.total_acb *)
+}.
+
+(* ignored_delta_descs entries *)
+Inductive note : Type :=
+| NoteReg (day : Z) (sec : N)            (* "... ignored transaction from registered affiliate" *)
+| NoteAf (day : Z) (sec : N) (af : N).   (* "... from non-default affiliate <name>" *)
+
+(* MaxSingleDayCosts without its date *)
+Record dayrec : Type := {
+  dr_total : Qc;
+  dr_costs : list (N * Qc)       (* sec_max_cost_for_day *)
+}.
+Definition dayrec0 : dayrec := {| dr_total := 0%Qc; dr_costs := [] |}.
+
+(* carry-forward of calc_max_day_cost_per_sec: the code before commit
+   "fix: carry the closing cost forward" carried the day's maximum *)
+Inductive carry_mode : Type := CarryMax | CarryClosing.
+
+Module CSite.
+  Definition observe_max : N := 40.    (* costs.rs observe_new_cost: try_from(max).unwrap() *)
+  Definition observe_total : N := 41.  (* costs.rs observe_new_cost: try_from(total - old + cur).unwrap() *)
+  Definition pre_unwrap : N := 42.     (* costs.rs d.pre_status.total_acb.unwrap() *)
+  Definition not_sorted : N := 43.     (* costs.rs panic!("Deltas for {sec} were not sorted ...") *)
+  Definition day_zero : N := 44.       (* costs.rs day_zero_sec_costs.get(sec).unwrap() *)
+  Definition day_missing : N := 45.    (* costs.rs max_costs_by_day.get(..).unwrap() *)
+  Definition render_cost : N := 46.    (* render.rs sec_max_cost_for_day.get(sec).unwrap() *)
+  Definition year_missing : N := 47.   (* render.rs costs.yearly.get(&year).unwrap() *)
+End CSite.
+
+(* monadic left fold *)
+Fixpoint mfold {S X : Type} (f : S -> X -> res S) (l : list X) (s : S) : res S :=
+  match l with
+  | [] => Ok s
+  | x :: r => s' <- f s x ;; mfold f r s'
+  end.
+
+Record st1 : Type := {
+  s_days : list (Z * dayrec);            (* max_costs_by_day *)
+  s_zero : list (N * (Z * Qc));          (* day_zero_sec_costs *)
+  s_secs : list N;                       (* security_set (insertion order) *)
+  s_notes : list note;                   (* ignored_delta_descs *)
+  s_close : list (Z * list (N * Qc))     (* closing_costs_by_day *)
+}.
+Definition st1_0 : st1 :=
+  {| s_days := []; s_zero := []; s_secs := []; s_notes := []; s_close := [] |}.
+
+Definition nmem (x : N) (l : list N) : bool := existsb (N.eqb x) l.
+
+Section WithArith.
+  Variable A : arith.
+
+  (* MaxSingleDayCosts::observe_new_cost *)
+  Definition observe (r : dayrec) (sec : N) (new_cost : Qc) : res dayrec :=
+    let old := match alookup sec (dr_costs r) with Some v => v | None => 0%Qc end in
+    cur <- gez_unwrap CSite.observe_max (Qcmax old new_cost) ;;
+    t1 <- a_sub A (dr_total r) old ;;
+    t2 <- a_add A t1 cur ;;
+    t <- gez_unwrap CSite.observe_total t2 ;;
+    Ok {| dr_total := t; dr_costs := aupdate sec cur (dr_costs r) |}.
+
+  (* body of the first loop of calc_max_day_cost_per_sec *)
+  Definition step1 (st : st1) (d : cdelta) : res st1 :=
+    let day := cd_day d in
+    let sec := cd_sec d in
+    match cd_post d with
+    | None =>
+        Ok {| s_days := s_days st; s_zero := s_zero st; s_secs := s_secs st;
+              s_notes := s_notes st ++ [NoteReg day sec]; s_close := s_close st |}
+    | Some acb =>
+        if negb (cd_dflt d) then
+          Ok {| s_days := s_days st; s_zero := s_zero st; s_secs := s_secs st;
+                s_notes := s_notes st ++ [NoteAf day sec (cd_af d)]; s_close := s_close st |}
+        else
+          let secs := if nmem sec (s_secs st) then s_secs st else s_secs st ++ [sec] in
+          let r := match zlookup day (s_days st) with Some r => r | None => dayrec0 end in
+          r' <- observe r sec acb ;;
+          let days := zupdate day r' (s_days st) in
+          let cl := match zlookup day (s_close st) with Some c => c | None => [] end in
+          let close := zupdate day (aupdate sec acb cl) (s_close st) in
+          match alookup sec (s_zero st) with
+          | None =>
+              match cd_pre d with
+              | None => Panic (PanicMissing CSite.pre_unwrap)
+              | Some p =>
+                  Ok {| s_days := days; s_zero := s_zero st ++ [(sec, (day, p))]; s_secs := secs;
+                        s_notes := s_notes st; s_close := close |}
+              end
+          | Some (d0, _) =>
+              if day <? d0 then Panic (PanicAssert CSite.not_sorted)
+              else Ok {| s_days := days; s_zero := s_zero st; s_secs := secs;
+                         s_notes := s_notes st; s_close := close |}
+          end
+    end.
+
+  Definition loop1 (ds : list cdelta) : res st1 := mfold step1 ds st1_0.
+
+  (* second loop: one security on one day *)
+  Definition fill_sec (cm : carry_mode) (zero : list (N * (Z * Qc))) (cl : list (N * Qc))
+             (x : dayrec * list (N * Qc)) (sec : N) : res (dayrec * list (N * Qc)) :=
+    let '(r, last) := x in
+    v <- match alookup sec (dr_costs r) with
+         | Some v => Ok v
+         | None => match alookup sec last with
+                   | Some v => Ok v
+                   | None => match alookup sec zero with
+                             | Some (_, p) => Ok p
+                             | None => Panic (PanicMissing CSite.day_zero)
+                             end
+                   end
+         end ;;
+    let carried := match cm with
+                   | CarryMax => v
+                   | CarryClosing => match alookup sec cl with Some c => c | None => v end
+                   end in
+    let last' := aupdate sec carried last in
+    if amem sec (dr_costs r) then Ok (r, last')
+    else r' <- observe r sec v ;; Ok (r', last').
+
+  (* second loop: one day; [order] is the iteration order over security_set *)
+  Definition fill_day (cm : carry_mode) (zero : list (N * (Z * Qc))) (close : list (Z * list (N * Qc)))
+             (order : list N) (x : list (Z * dayrec) * list (N * Qc)) (day : Z)
+    : res (list (Z * dayrec) * list (N * Qc)) :=
+    let '(days, last) := x in
+    match zlookup day days with
+    | None => Panic (PanicMissing CSite.day_missing)
+    | Some r =>
+        let cl := match zlookup day close with Some c => c | None => [] end in
+        '(r', last') <- mfold (fill_sec cm zero cl) order (r, last) ;;
+        Ok (zupdate day r' days, last')
+    end.
+
+  Definition loop2 (cm : carry_mode) (order : list N) (st : st1) : res (list (Z * dayrec)) :=
+    '(days, _) <- mfold (fill_day cm (s_zero st) (s_close st) order)
+                        (zsort (map fst (s_days st))) (s_days st, []) ;;
+    Ok days.
+
+  (* calc_yearly_max_cost_day: [order] is the iteration order over
+     max_costs_by_day; the result maps a year to its chosen day *)
+  Definition pick_step (days : list (Z * dayrec)) (picks : list (Z * Z)) (day : Z) : res (list (Z * Z)) :=
+    match zlookup day days with
+    | None => Panic (PanicMissing CSite.day_missing)
+    | Some r =>
+        let y := year_of day in
+        match zlookup y picks with
+        | None => Ok (zupdate y day picks)
+        | Some old =>
+            match zlookup old days with
+            | None => Panic (PanicMissing CSite.day_missing)
+            | Some ro =>
+                if Qcltb (dr_total ro) (dr_total r) then Ok (zupdate y day picks) else Ok picks
+            end
+        end
+    end.
+  Definition yearly_picks (order : list Z) (days : list (Z * dayrec)) : res (list (Z * Z)) :=
+    mfold (pick_step days) order [].
+End WithArith.
+
+(* ---- render_total_costs ---- *)
+Definition trow : Type := (Z * Qc * list Qc)%type.          (* date, total, per security *)
+Definition yrow : Type := (Z * Z * Qc * list Qc)%type.      (* year, date, total, per security *)
+
+Fixpoint mmap {X Y : Type} (f : X -> res Y) (l : list X) : res (list Y) :=
+  match l with
+  | [] => Ok []
+  | x :: r => y <- f x ;; ys <- mmap f r ;; Ok (y :: ys)
+  end.
+
+Definition render_costs (secs : list N) (r : dayrec) : res (list Qc) :=
+  mmap (fun s => match alookup s (dr_costs r) with
+                 | Some v => Ok v
+                 | None => Panic (PanicMissing CSite.render_cost)
+                 end) secs.
+
+Definition render_day (secs : list N) (days : list (Z * dayrec)) (day : Z) : res trow :=
+  match zlookup day days with
+  | None => Panic (PanicMissing CSite.day_missing)
+  | Some r => cs <- render_costs secs r ;; Ok (day, dr_total r, cs)
+  end.
+
+Definition render_year (secs : list N) (days : list (Z * dayrec)) (picks : list (Z * Z)) (y : Z) : res yrow :=
+  match zlookup y picks with
+  | None => Panic (PanicMissing CSite.year_missing)
+  | Some day =>
+      match zlookup day days with
+      | None => Panic (PanicMissing CSite.day_missing)
+      | Some r => cs <- render_costs secs r ;; Ok (y, day, dr_total r, cs)
+      end
+  end.
+
+Record ctables : Type := {
+  ct_secs : list N;          (* header: security columns *)
+  ct_total : list trow;      (* Total Costs rows *)
+  ct_yearly : list yrow;     (* Yearly Max Costs rows *)
+  ct_notes : list note       (* notes of both tables *)
+}.
+
+(* calc_total_costs + render_total_costs with explicit iteration orders:
+   [sec_order] over security_set in the carry-forward loop, [day_order] over
+   max_costs_by_day in calc_yearly_max_cost_day (functions of the containers'
+   key lists) *)
+Definition costs_with (A : arith) (cm : carry_mode)
+           (sec_order : list N -> list N) (day_order : list Z -> list Z)
+           (ds : list cdelta) : res ctables :=
+  st <- loop1 A ds ;;
+  days <- loop2 A cm (sec_order (s_secs st)) st ;;
+  picks <- yearly_picks (day_order (map fst days)) days ;;
+  let secs := nsort (s_secs st) in
+  let sorted_days := zsort (map fst days) in
+  total <- mmap (render_day secs days) sorted_days ;;
+  yearly <- mmap (render_year secs days picks) (zsort (map fst picks)) ;;
+  Ok {| ct_secs := secs; ct_total := total; ct_yearly := yearly; ct_notes := s_notes st |}.
+
+(* the code as it is now: closing cost carried forward, securities and days
+   iterated in sorted order *)
+Definition costs (A : arith) (ds : list cdelta) : res ctables :=
+  costs_with A CarryClosing nsort zsort ds.
+
+(* approot.rs run_acb_app_to_render_model: all_deltas is the concatenation of
+   the securities' delta lists in the iteration order over the result map *)
+Definition concat_deltas (order : list N) (by_sec : list (N * list cdelta)) : list cdelta :=
+  flat_map (fun s => match alookup s by_sec with Some l => l | None => [] end) order.
+Definition all_deltas (by_sec : list (N * list cdelta)) : list cdelta :=
+  concat_deltas (nsort (map fst by_sec)) by_sec.
